@@ -41,7 +41,7 @@ func Run(c *core.Ctx) core.FinishOpts {
 		Rule: "round trips: seeded random values (all type ids, nesting <= 3, int/float/time/duration extremes, NaN payloads, invalid UTF-8), types (empty list type, Any, unions), schemas, records, metadata, 0-4 frame contexts; " +
 			"predicates: seeded random WHERE expressions over every function of the function map, kept if the real typechecker accepts them; wire: seeded scripts/contexts/predicates against the real plugin process; " +
 			"CLI: seeded query pairs; non-trivial = non-null value / compound type / non-empty schema, record, context / accepted predicate / non-empty query result; distinct by the printed case",
-		Floor: c.Pick(2500, 100000),
+		Floor: c.Pick(2500, 60000),
 		Assumptions: []string{
 			"oracle: own structural comparer; differential evaluation uses octosql's own execution of the ORIGINAL expression as the reference (the property is about the boundary, not about the functions)",
 			"google.golang.org/protobuf, encoding/json and gRPC are trusted",
